@@ -188,7 +188,7 @@ pub fn run_all(text: &str, out: &mut dyn std::io::Write) -> usize {
     base.run.start(&mut sink);
     base.run.apply(&mut sink, &json!({"m":"resume_contract","s":"admin","n":0,"l":0,"r":0}));
     let mut n = 0usize;
-    for line in text.lines() {
+    for (lineno, line) in text.lines().enumerate() {
         if !line.starts_with("\"CFG ") {
             continue;
         }
@@ -252,6 +252,8 @@ pub fn run_all(text: &str, out: &mut dyn std::io::Write) -> usize {
             }
             _ => continue,
         };
+        let mut rec = rec;
+        rec["src"] = json!(lineno + 1);
         writeln!(out, "{}", rec).unwrap();
         n += 1;
     }
@@ -287,6 +289,39 @@ pub fn run_all(text: &str, out: &mut dyn std::io::Write) -> usize {
                     "classes": {}, "sections": [], "want": false, "stored": {}, "lst_ok": true, "halted": true, "unchanged": {}, "replaced": {}, "err": o.err})).unwrap();
                 n += 1;
             }
+        }
+    }
+    // TLC-enumerated SEQUENCES of validator additions / removals (ConfigMC.tla VSEQ lines): every step recorded with the
+    // validator's class computed independently from the list as it stood before the step (any spelling counts as present)
+    for (lineno, line) in text.lines().enumerate() {
+        if !line.starts_with("\"VSEQ ") {
+            continue;
+        }
+        let Ok(s) = serde_json::from_str::<String>(line.trim()) else { continue };
+        let msg: Value = serde_json::from_str(&s[5..]).unwrap();
+        let mut w = r.w.clone();
+        for (k, st) in msg["steps"].as_array().cloned().unwrap_or_default().iter().enumerate() {
+            let op = st["op"].as_str().unwrap_or("");
+            let mut v = r.ad(st["v"].as_str().unwrap_or(""));
+            if st["spelling"] == "upper" {
+                v = v.to_uppercase();
+            }
+            let pre = vals(&w);
+            let present = pre.iter().any(|x| x.to_lowercase() == v.to_lowercase());
+            let m = if op == "add_validator" { json!({"add_validator": {"new_validator": v}}) } else { json!({"remove_validator": {"validator": v}}) };
+            let o = w.tx_execute(&r.ad("admin"), &m, &[], &Default::default());
+            let post = vals(&w);
+            let lower = |l: &Vec<String>| -> Vec<String> { let mut x: Vec<String> = l.iter().map(|s| s.to_lowercase()).collect(); x.sort(); x };
+            let mut plus = pre.clone();
+            plus.push(v.clone());
+            // exactly one entry naming this validator disappears, everything else stays
+            let minus: Vec<String> = pre.iter().filter(|x| x.to_lowercase() != v.to_lowercase()).cloned().collect();
+            let dedup_ok = { let l = lower(&post); let mut d = l.clone(); d.dedup(); d.len() == l.len() };
+            writeln!(out, "{}", json!({"kind": op, "vclass": if present { "present" } else { "new" }, "admin": true, "ok": o.ok, "panic": o.panic,
+                "same": post == pre, "added": lower(&post) == lower(&plus), "removed": lower(&post) == lower(&minus) && minus.len() + 1 == pre.len(),
+                "no_duplicates": dedup_ok, "src": lineno + 1, "step": k + 1, "want": msg["want"][k],
+                "classes": {}, "sections": [], "stored": {}, "lst_ok": true, "halted": true, "unchanged": {}, "replaced": {}, "err": o.err})).unwrap();
+            n += 1;
         }
     }
     n
